@@ -102,11 +102,15 @@ class StmtMixin:
     def name_term(self, v, hint="t"):
         """Give a deep bit-vector term a name: a fresh constant with a defining equation in the path condition
         (conservative), so that later terms and VCs stay small.  Interval facts carry over to the name."""
-        if not (is_bv(v) and self.ctx.settings.name_deep_terms) or self.ctx.nofork or getattr(self, "naming_off", False):
+        if not ((is_bv(v) or is_zreal(v)) and self.ctx.settings.name_deep_terms) or self.ctx.nofork or getattr(self, "naming_off", False):
             return v
         if term_depth(v) <= self.ctx.settings.name_deep_terms:
             return v
         from . import ranges
+        if is_zreal(v):
+            nr = z3.Real(self.ctx.fresh_name("let_" + hint))
+            self.ctx.pc.append(nr == v)
+            return nr
         nv = z3.BitVec(self.ctx.fresh_name("let_" + hint), v.size())
         r = ranges.rng(v)
         self.ctx.pc.append(nv == v)
